@@ -3,6 +3,8 @@
     /venv/bin/python -m harness.props.c13_runner < spec.json > result.json
 
 spec: {"schema": <raw dict> | {"files": {name: dict}, "entry": name}, "phases": [...], "modes": ["positive", ...], "seed": int,
+       "headers": {generic request headers = NetworkConfig.headers}, "override": {"query"|"headers"|"cookies"|"path_parameters": {..}},
+       "slow_prefix": "/op0", "slow_s": 0.1 (the API answers slowly for that path), "preimport": bool,
        "workers": n, "max_examples": k, "step_count": k | null, "responder": "ok" | "fail500", "repeat": n}
 result: {"runs": [{"requests": [...], "failures": [...], "entropy": [...], "seed_calls": [...]}]}
 
@@ -143,8 +145,12 @@ def canonical(reqs) -> list:
     return out
 
 
-def responder_for(name):
+def responder_for(name, slow_prefix=None, slow_s=0.0):
+    import time
+
     def ok(item):
+        if slow_prefix and item["target"].startswith(slow_prefix):
+            time.sleep(slow_s)  # a slow operation: with several workers the other threads take the later operations
         path = item["target"].split("?")[0]
         if item["method"] == "POST" and path.rstrip("/").count("/") == 1:
             return 201, [("Content-Type", "application/json")], b'{"id": 1}'
@@ -189,7 +195,7 @@ def run_spec(spec: dict) -> dict:
         _CURRENT["seed_calls"] = []
         _CURRENT["boundary"] = []
         _CURRENT["phase"] = None
-    rec = Recorder(responder_for(spec.get("responder", "ok")))
+    rec = Recorder(responder_for(spec.get("responder", "ok"), spec.get("slow_prefix"), spec.get("slow_s", 0.0)))
     tmp = None
     try:
         sch = spec["schema"]
@@ -222,7 +228,14 @@ def run_spec(spec: dict) -> dict:
             workers_num=spec.get("workers", 1),
             max_failures=spec.get("max_failures"),
         )
-        config = EngineConfig(execution=exe, network=NetworkConfig(headers={}))
+        override = None
+        if spec.get("override") is not None:
+            from schemathesis.generation.overrides import Override
+
+            ov = spec["override"]
+            override = Override(query=dict(ov.get("query", {})), headers=dict(ov.get("headers", {})), cookies=dict(ov.get("cookies", {})),
+                                path_parameters=dict(ov.get("path_parameters", {})))
+        config = EngineConfig(execution=exe, network=NetworkConfig(headers=dict(spec.get("headers") or {})), override=override)
         failures = []
         errors = []
         phase_of_request = []
